@@ -9,12 +9,12 @@ from framework import PY, REPO, VERIF
 WORKER = os.path.join(VERIF, "lib", "worker.py")
 
 
-def run_batch(items, seed="0", cwd=None, timeout=600):
+def run_batch(items, seed="0", cwd=None, timeout=600, extra=None):
     env = dict(os.environ)
     env["PYTHONHASHSEED"] = str(seed)
     env["BB_REPO"] = REPO
     env["PYTHONPATH"] = os.path.join(REPO, "blackbird_python")
-    r = subprocess.run([PY, WORKER], input=json.dumps({"items": items, "cwd": cwd}), capture_output=True, text=True,
+    r = subprocess.run([PY, WORKER], input=json.dumps(dict({"items": items, "cwd": cwd}, **(extra or {}))), capture_output=True, text=True,
                        env=env, timeout=timeout)
     if r.returncode != 0:
         raise RuntimeError("worker failed: " + r.stderr[-500:])
